@@ -27,7 +27,7 @@ DETECT = {
     "C08-A": ("C08", ["C08", "C14"], ""),
     "C08-B": ("C08", ["C08", "C13"], "escaped C08 at first (states were only loaded into fresh objects); a load; iter(); load; iterate leg on the SAME object was added"),
     "C09-A": ("C09", ["C09"], "kill during the start-up handshake"),
-    "C09-B": ("C09", ["C09"], "via the broken K-T correspondence of the MP model (no-failing-input-found in the quick tier)"),
+    "C09-B": ("C09", ["C09"], "at first only via the broken K-T correspondence of the MP model; the oracle now also kills persistent workers between / in later epochs and reports the hang concretely"),
     "C10-A": ("C10", ["C10"], "needed datasets whose state_dict() raises (added)"),
     "C10-B": ("C10", ["C10"], "needed a start-up failure after load_state_dict (added)"),
     "C11-A": ("C11", ["C11"], ""),
@@ -55,8 +55,22 @@ DETECT = {
     "C10-C": ("C10", ["C10"], "only the last start-up acknowledgement's error surfaces"),
     "C10-D": ("C10", ["C10"], "escaped at first: needed state_dict() before the first iteration with a failing worker_init_fn (added)"),
     "C12-C": ("C12", ["C12"], "reader checks stop only after an acquire timeout"),
-    "C12-D": ("C12", ["C12"], "via the broken K-T correspondence only (needs a process-worker death while the reader is in a slow source, then reset)"),
+    "C12-D": ("C12", ["C12"], "at first only via the broken K-T correspondence; lifecycle cases now kill a process worker while the reader is inside a moderately slow source and reset() right after the error (source reset() counts as being inside the source)"),
     "C13-C": ("C13", ["C13"], "SamplerWrapper keeps a stale _started after a load"),
+    "C04-C": ("C04", ["C04"], "escaped the oracle at first (K-T divergence only): map functions slower than the consumer's poll timeout were added, the multiset oracle then reports the dropped in-flight items"),
+    "C04-D": ("C04", ["C02", "C04"], ""),
+    "C08-C": ("C08", ["C08", "C13"], "escaped C08 at first: the state of a FINISHED iterator is now captured and checked too"),
+    "C08-D": ("C08", ["C08"], "escaped at first: needed a map-style dataset whose items come from the worker's RNG (added: map_rng)"),
+    "C11-C": ("C11", ["C11"], ""),
+    "C11-D": ("C11", ["C11"], ""),
+    "C14-C": ("C14", ["C14"], ""),
+    "C14-D": ("C14", ["C14"], ""),
+    "C15-C": ("C15", ["C15"], ""),
+    "C15-D": ("C15", ["C15"], ""),
+    "C16-C": ("C16", ["C16"], "escaped at first: a second load_state_dict after a rejected one is now attempted (retry must be rejected as well)"),
+    "C16-D": ("C16", ["C16"], "escaped at first: state_dict() taken before the first iteration of an empty/short epoch"),
+    "C17-C": ("C17", ["C17"], ""),
+    "C17-D": ("C17", ["C17"], ""),
     "C13-D": ("C13", ["C01"], "_sampler_iter_yielded not zeroed on _reset: caught by C01's resume oracle with persistent workers (second epoch), not by C13"),
 }
 
